@@ -50,6 +50,9 @@ func ParseTLC(line []byte) ([]Op, error) {
 				o.C = int(r[6].(float64))
 			}
 			ops = append(ops, o)
+		case "rst":
+			p := int(r[2].(float64))
+			ops = append(ops, Op{Kind: "seg", C: 1, D: int(r[1].(float64)), Lo: p, Hi: p, Rst: true})
 		case "flushall":
 			ops = append(ops, Op{Kind: "flushall"})
 		case "flusholder":
@@ -170,7 +173,12 @@ func RandomScenario(r *vh.Rand, units int, nconn int, nops int) []Op {
 			}
 			hi := lo + ln
 			fin := hi == units && r.Intn(2) == 0
-			ops = append(ops, Op{Kind: "seg", C: c, D: d, Lo: lo, Hi: hi, Fin: fin, Rst: false})
+			if r.Intn(20) == 0 { // an (injected) RST at an arbitrary position
+				p := r.Intn(units + 1)
+				ops = append(ops, Op{Kind: "seg", C: c, D: d, Lo: p, Hi: p, Rst: true})
+				continue
+			}
+			ops = append(ops, Op{Kind: "seg", C: c, D: d, Lo: lo, Hi: hi, Fin: fin})
 		}
 	}
 	ops = append(ops, Op{Kind: "flushall"})
